@@ -18,27 +18,50 @@ def outOf (p : Pes) : FrameOut := ⟨p.pts, p.lines.map ofLine⟩
 /-- the first line number of a frame (0 if it has no lines) -/
 def firstLine (ls : List Line) : Nat := (ls.head?.map (·.line)).getD 0
 
-/-- the lines of one packet are one frame the demultiplexer can hold: at least one line, all line
-numbers defined and strictly ascending, fewer than 64 lines (`dx->sliced[64]`; a 64th line can be
-stored, but the frame is then never closed: `line_address` reports the overflow before it looks at
-the line number) -/
-def FrameLinesOK (ls : List Line) : Prop := ls ≠ [] ∧ AscFrom 0 ls ∧ ls.length < 64
+/-- the largest frame the demultiplexer delivers: all 64 slots of `dx->sliced[64]` with fix
+dvb-demux-full-frame; 63 before it (a 64th line can be stored, but the frame is then never closed:
+`line_address` reports the overflow before it looks at the line number, finding C07-full-frame) -/
+def frameCap (cfg : SrcCfg) : Nat := if cfg.lateOverflow = true then 64 else 63
+
+theorem frameCap_le (cfg : SrcCfg) : frameCap cfg ≤ 64 := by unfold frameCap; split <;> omega
+theorem frameCap_ge (cfg : SrcCfg) : 63 ≤ frameCap cfg := by unfold frameCap; split <;> omega
+theorem frameCap_late (h : cfg.lateOverflow = true) : frameCap cfg = 64 := by simp [frameCap, h]
+theorem frameCap_room (n : Nat) (h : n ≤ frameCap cfg) : cfg.lateOverflow = true ∨ n < 64 := by
+  unfold frameCap at h
+  split at h
+  · left; assumption
+  · right; omega
+
+/-- the lines of one packet are one frame the demultiplexer can hold and close: at least one line, all
+line numbers defined and strictly ascending, at most `frameCap` lines (64 with the repaired
+`line_address`) -/
+def FrameLinesOK (cfg : SrcCfg) (ls : List Line) : Prop := ls ≠ [] ∧ AscFrom 0 ls ∧ ls.length ≤ frameCap cfg
 
 /-- consecutive packets are separable frames: each begins on a line not beyond the last line of the
 one before (`x`: last line of the frame before the first packet) -/
-def SepFrom : Nat → List (List Line) → Prop
+def SepFrom (cfg : SrcCfg) : Nat → List (List Line) → Prop
   | _, [] => True
-  | x, a :: r => FrameLinesOK a ∧ firstLine a ≤ x ∧ SepFrom (lastLineOf 0 a) r
+  | x, a :: r => FrameLinesOK cfg a ∧ firstLine a ≤ x ∧ SepFrom cfg (lastLineOf 0 a) r
 
 /-- a whole stream of separable frames (nothing is required of the first frame's first line) -/
-def Sep : List (List Line) → Prop
+def Sep (cfg : SrcCfg) : List (List Line) → Prop
   | [] => True
-  | a :: r => FrameLinesOK a ∧ SepFrom (lastLineOf 0 a) r
+  | a :: r => FrameLinesOK cfg a ∧ SepFrom cfg (lastLineOf 0 a) r
+
+instance (cfg : SrcCfg) (ls : List Line) : Decidable (FrameLinesOK cfg ls) := by unfold FrameLinesOK; infer_instance
+instance decSepFrom (cfg : SrcCfg) : ∀ x r, Decidable (SepFrom cfg x r)
+  | _, [] => isTrue trivial
+  | x, a :: r => by
+    unfold SepFrom
+    exact @instDecidableAnd _ _ _ (@instDecidableAnd _ _ _ (decSepFrom cfg (lastLineOf 0 a) r))
+instance (cfg : SrcCfg) : ∀ r, Decidable (Sep cfg r)
+  | [] => isTrue trivial
+  | a :: r => by unfold Sep; infer_instance
 
 /-- the stream machine at a packet boundary holding frame `q`, reading packets `pks` -/
 theorem arun_stream_from : ∀ (pks : List (Bytes × Pes)) (fs : FS) (q : Pes),
     (∀ x ∈ pks, parsePes x.1 = some x.2) → (∀ x ∈ pks, ∀ b ∈ x.1, b < 256) →
-    Holds fs q.pts q.lines → q.lines.length < 64 → SepFrom (lastLineOf 0 q.lines) (pks.map fun x => x.2.lines) →
+    Holds fs q.pts q.lines → q.lines.length ≤ frameCap cfg → SepFrom cfg (lastLineOf 0 q.lines) (pks.map fun x => x.2.lines) →
     ∃ fsEnd, arun cfg { skip := 0, lookahead := 48, fs := fs } (pks.map Prod.fst).flatten
         = { core := { skip := 0, lookahead := 48, fs := fsEnd }, pend := [],
             frames := ((q :: pks.map Prod.snd).dropLast).map outOf, stop := none }
@@ -50,18 +73,20 @@ theorem arun_stream_from : ∀ (pks : List (Bytes × Pes)) (fs : FS) (q : Pes),
     exact ⟨fs, by simp [arun], by simpa using hh⟩
   | cons x pks ih =>
     intro fs q hp hb hh hq hsep
+    have hcap64 := frameCap_le cfg
     obtain ⟨pk, p⟩ := x
     simp only [List.map_cons, SepFrom] at hsep
     obtain ⟨⟨hne, hasc, hlt⟩, hfirst, hsep'⟩ := hsep
     have hpp : parsePes pk = some p := hp (pk, p) (List.mem_cons_self ..)
-    obtain ⟨us, hul, hstep⟩ := arun_packet (cfg := cfg) fs pk (pks.map Prod.fst).flatten p hpp
+    obtain ⟨us, hul, hstep, _⟩ := arun_packet (cfg := cfg) fs pk (pks.map Prod.fst).flatten p hpp
       (hb (pk, p) (List.mem_cons_self ..))
     obtain ⟨l, ls, hls⟩ := List.exists_cons_of_ne_nil hne
     rw [hls] at hul hasc hlt
     have hfl : firstLine p.lines = l.line := by simp [firstLine, hls]
     obtain ⟨fs', hpf, hh', _⟩ := pesPacketFrame_next cfg.corSkipsEmpty
       { fs with packetPts := p.pts, frame := { fs.frame with nDu := 0 } } us l ls hh.nf rfl
-      (by show fs.frame.lines.length < 64; rw [hh.lines, List.length_map]; exact hq)
+      (by show cfg.lateOverflow = true ∨ fs.frame.lines.length < 64
+          rw [hh.lines, List.length_map]; exact frameCap_room _ hq)
       hul hasc (by omega) (by show l.line ≤ fs.frame.lastFrameLine; rw [hh.last, ← hfl]; exact hfirst)
     have hstep' := hstep fs' _ hpf
     obtain ⟨fsEnd, har, hend⟩ := ih fs' p (fun y hy => hp y (List.mem_cons_of_mem _ hy))
@@ -78,16 +103,17 @@ theorem arun_stream_from : ∀ (pks : List (Bytes × Pes)) (fs : FS) (q : Pes),
 packet only opens a frame -/
 theorem arun_stream_start (x : Bytes × Pes) (pks : List (Bytes × Pes)) (fs : FS) (hnf : fs.newFrame = true)
     (hp : ∀ y ∈ x :: pks, parsePes y.1 = some y.2) (hb : ∀ y ∈ x :: pks, ∀ b ∈ y.1, b < 256)
-    (hsep : Sep ((x :: pks).map fun x => x.2.lines)) :
+    (hsep : Sep cfg ((x :: pks).map fun x => x.2.lines)) :
     ∃ fsEnd, arun cfg { skip := 0, lookahead := 48, fs := fs } ((x :: pks).map Prod.fst).flatten
         = { core := { skip := 0, lookahead := 48, fs := fsEnd }, pend := [],
             frames := (((x :: pks).map Prod.snd).dropLast).map outOf, stop := none }
       ∧ Holds fsEnd (((x :: pks).map Prod.snd).getLast (by simp)).pts (((x :: pks).map Prod.snd).getLast (by simp)).lines := by
+  have hcap64 := frameCap_le cfg
   obtain ⟨pk, p⟩ := x
   simp only [List.map_cons, Sep] at hsep
   obtain ⟨⟨hne, hasc, hlt⟩, hsep'⟩ := hsep
   have hpp : parsePes pk = some p := hp (pk, p) (List.mem_cons_self ..)
-  obtain ⟨us, hul, hstep⟩ := arun_packet (cfg := cfg) fs pk (pks.map Prod.fst).flatten p hpp
+  obtain ⟨us, hul, hstep, _⟩ := arun_packet (cfg := cfg) fs pk (pks.map Prod.fst).flatten p hpp
     (hb (pk, p) (List.mem_cons_self ..))
   obtain ⟨l, ls, hls⟩ := List.exists_cons_of_ne_nil hne
   rw [hls] at hul hasc hlt
@@ -141,7 +167,7 @@ each as one frame with its PTS, its lines in order, their service ids, line numb
 bits; it has consumed everything, stands at a packet boundary, and holds the last frame with its
 PTS in the frame buffer. -/
 theorem frames_of_pesStream (bs : Bytes) (ps : List Pes) (h : pesStream bs = some ps)
-    (hb : ∀ b ∈ bs, b < 256) (hsep : Sep (ps.map (·.lines))) :
+    (hb : ∀ b ∈ bs, b < 256) (hsep : Sep cfg (ps.map (·.lines))) :
     ∃ fsEnd, arun cfg Core.init bs
         = { core := { skip := 0, lookahead := 48, fs := fsEnd }, pend := [], frames := ps.dropLast.map outOf,
             stop := none }
@@ -163,7 +189,7 @@ theorem frames_of_pesStream (bs : Bytes) (ps : List Pes) (h : pesStream bs = som
 /-- the same from any context at a packet boundary that is at a frame start (`new_frame` set: after
 `vbi_dvb_demux_reset`, after a discarded frame), whatever stale lines, counters and PTS it holds -/
 theorem frames_of_pesStream_from (fs : FS) (hnf : fs.newFrame = true) (bs : Bytes) (ps : List Pes)
-    (h : pesStream bs = some ps) (hb : ∀ b ∈ bs, b < 256) (hsep : Sep (ps.map (·.lines))) (hne : ps ≠ []) :
+    (h : pesStream bs = some ps) (hb : ∀ b ∈ bs, b < 256) (hsep : Sep cfg (ps.map (·.lines))) (hne : ps ≠ []) :
     ∃ fsEnd, arun cfg { skip := 0, lookahead := 48, fs := fs } bs
         = { core := { skip := 0, lookahead := 48, fs := fsEnd }, pend := [], frames := ps.dropLast.map outOf,
             stop := none }
